@@ -25,7 +25,7 @@ TECHNIQUE = ("runtime monitoring with injected faults: the full option matrix of
 RULE = ("clean_up in {None,True,False} x allow_incomplete x wait x farmer kind {raw, raw->to_ds, Runner, Harvester, Sampler} x "
         "injected failure {none, incomplete crop, truncated result, unreadable result, wrong output description, merge "
         "conflict with existing data, failing save (failpoint raising once in save_ds/save_df)} on crops of several "
-        "shapes; plus reaps under warnings turned into errors (a raising reap leaves the crop untouched, the same reap under ordinary filters is exact), un-synced farmer reaps, over-long last result files with falsy surplus, and a long-lived Crop object reaping after another object re-sowed an extended sweep and grew it; chunked (dask-backed) harvesters; each (options, kind, failure, shape) is one execution incl. its retry; non-trivial always")
+        "shapes; plus reaps under warnings turned into errors (a raising reap leaves the crop untouched, the same reap under ordinary filters is exact), un-synced farmer reaps, over-long last result files with falsy surplus, and a long-lived Crop object reaping after another object re-sowed an extended sweep and grew it; chunked (dask-backed) harvesters; attempts under xarray's announced combine defaults; farmer files named by a pathlib.Path; another session's write that keeps the file's time stamp; each (options, kind, failure, shape) is one execution incl. its retry; non-trivial always")
 ASSUMPTIONS = [
     "wait=True is combined only with complete crops (an incomplete crop would block by design; waiting is C11's subject)",
     "the save failpoint replaces xyzpy.gen.farming.save_ds / save_df by a wrapper that raises OSError once (applied from the harness)",
